@@ -30,8 +30,8 @@ ASSUMPTIONS = [
     "not to a fixpoint unless the state set stops growing (reported as exhaustive_cases)",
     "variables without initial value start from the symbolic value <name>0, represented by an arbitrary rational",
 ]
-TIMEOUT = {"quick": 30, "thorough": 90}
-DEADLINE = {"quick": 90, "thorough": 1200}
+TIMEOUT = {"quick": 20, "thorough": 90}
+DEADLINE = {"quick": 65, "thorough": 1200}
 MIN_DECIDING = {"quick": 60, "thorough": 600}
 NCASES = {"quick": 400, "thorough": 9000}
 
@@ -41,7 +41,7 @@ def generate(seed, tier):
     for i in range(NCASES[tier]):
         cs = K.harness_seed(seed, ID, i)
         rng = random.Random(cs)
-        profile = rng.choice(["guarded", "guarded", "guarded", "nested", "multiassign", "multiassign", "discrete", "mixed", "symbolic", "counter", "delay"])
+        profile = rng.choice(["guarded", "guarded", "guarded", "nested", "multiassign", "multiassign", "discrete", "mixed", "symbolic", "counter", "delay", "abstract"])
         prog, feats, meta = G.generate(cs, profile)
         params, inits = G.instantiate_params(rng, meta, prog)
         cfg = {"type_fp_iterations": rng.choice([1, 2, 3, 100, 100, 100])}
